@@ -246,3 +246,17 @@ def string_literals(run_dir, max_body=3):
             out.append('y = [%s, 1]\nz = 2\n' % lit)
     os.remove(os.path.join(run_dir, 'lits.dump'))
     return sorted(set(out)), res
+
+
+# every string prefix x every escape form (well-formed and malformed): the string checks of the error finder branch
+# on the prefix letters and on the kind of escape
+def escape_literals():
+    out = []
+    prefixes = ['', 'r', 'R', 'b', 'B', 'u', 'U', 'rb', 'Rb', 'rB', 'RB', 'br', 'bR', 'Br', 'BR', 'f', 'F', 'fr', 'Rf']
+    escapes = ['\\x', '\\x4', '\\x41', '\\u12', '\\u1234', '\\U0001', '\\U0001F600', '\\N{foo}', '\\N{DASH}',
+               '\\N', '\\8', '\\777', '\\d', '\\', 'C:\\Users\\x']
+    for p in prefixes:
+        for e in escapes:
+            for q in ("'", '"'):
+                out.append('x = %s%s%s%s\n' % (p, q, e, q))
+    return out
